@@ -309,7 +309,8 @@ def project(cfg, res):
         t, tp = float(row["time"]), float(prow["time"])
         dt = t - tp
         e = {"e": "step", "n": n, "lens": s["lens"], "tcmp": cmp3(t, tp, rtol=0.0),
-             "finite": bool(all(np.all(np.isfinite(row[a])) for a in ATTRS)),
+             # (the row recorded by setup() is judged with the first step)
+             "finite": bool(all(np.all(np.isfinite(row[a])) for a in ATTRS) and (n != 1 or all(np.all(np.isfinite(getattr(d, a)[0])) for a in ATTRS))),
              "T": mk(float(row["temperature"])), "Tsched": cmp3(float(row["temperature"]), sched(cfg, t), rtol=1e-12),
              "newcall": (n - 1) in starts}
         # --- the recorded equilibrium compositions (binary, scripted closure with a temperature dependent solvus): the temperature
